@@ -234,6 +234,10 @@ def judge(d):
                 if not nm:
                     continue  # keep at least one molecule
             elif name in ("head", "tail"):
+                # (taking no molecule at all is legal too; the history then continues with a non-empty selection)
+                if cur.head(0).count() != 0 or cur.tail(0).count() != 0:
+                    out.append(viol("C03/head-tail-zero", f"{tag}: head(0) holds {cur.head(0).count()} and tail(0) holds {cur.tail(0).count()} molecules, expected none"))
+                    return out
                 c = 1 + op["n"] % max(1, n)
                 new = cur.head(c) if name == "head" else cur.tail(c)
                 nm = cur_model[:c] if name == "head" else cur_model[n - c:]
